@@ -127,7 +127,7 @@ def run_harness(ctx, hb, workdir, replay_obj=None):
     os.makedirs(workdir, exist_ok=True)
     args = [hb, "-seed", str(ctx.seed), "-tier", ctx.tier, "-out", workdir]
     fwd = forwarder_binary(ctx)
-    if fwd and (replay_obj is None or replay_obj.get("kind") in ("e2e", "route")):
+    if fwd and (replay_obj is None or replay_obj.get("kind") in ("e2e", "route", "mitm")):
         args += ["-forwarder", fwd]
     if replay_obj is not None:
         inner = os.path.join(workdir, "replay_in.json")
@@ -236,7 +236,7 @@ def run(ctx):
 
     hb, hlog = ctx.build_harness(HARNESS)
     meta, res = {}, {}
-    bad = {k: {"M": [], "P": [], "U": []} for k in ("rule", "list", "e2e", "route")}
+    bad = {k: {"M": [], "P": [], "U": []} for k in ("rule", "list", "e2e", "route", "mitm")}
     if hb is None:
         ob_failed.append("harness does not build against the source tree: " + hlog[-800:])
     else:
@@ -256,14 +256,15 @@ def run(ctx):
             src = {"rule": load_jsonl(os.path.join(ctx.work, "rcases.jsonl")),
                    "list": load_jsonl(os.path.join(ctx.work, "lcases.jsonl")),
                    "e2e": load_jsonl(os.path.join(ctx.work, "ucases.jsonl")),
-                   "route": load_jsonl(os.path.join(ctx.work, "vcases.jsonl"))}
+                   "route": load_jsonl(os.path.join(ctx.work, "vcases.jsonl")),
+                   "mitm": load_jsonl(os.path.join(ctx.work, "mcases.jsonl"))}
             if forwarder_binary(ctx) is None:
                 ob_failed.append("forwarder binary does not build: " + FORWARDER.get("log", "")[-600:])
             if meta.get("e2e_error"):
                 ob_failed.append("end-to-end run failed: " + meta["e2e_error"])
             for shard in meta["shards"]:
                 r = res.get(shard) or {}
-                kind = {"rcases": "rule", "lcases": "list", "ucases": "e2e", "vcases": "route"}[shard.split("_")[0]]
+                kind = {"rcases": "rule", "lcases": "list", "ucases": "e2e", "vcases": "route", "mcases": "mitm"}[shard.split("_")[0]]
                 base = int(shard.split("_")[1].split(".")[0]) * meta["shard_size"]
                 for ident in ("M", "P", "U"):
                     for i in (ctx.parse_nlist(r.get(ident)) or []):
@@ -322,6 +323,19 @@ def run(ctx):
         ctx.violation("e2e-correspondence", dict(c, kind="e2e", texts=list_texts(c),
                                                  unchecked="correspondence model(g17 match_entries on the bare host)/real binary"),
                       False, "%d --deny-domains lists; smallest: %s" % (len(bad["e2e"]["M"]), list_texts(c)))
+    if bad["mitm"]["P"]:
+        c = smallest(bad["mitm"]["P"])
+        ctx.violation("e2e-mitm-domains-interception-differs-from-per-rule-evaluation",
+                      dict(c, kind="mitm", texts=list_texts(c)), True,
+                      "%d --mitm-domains lists for which the real binary intercepts / tunnels a CONNECT differently from per-rule "
+                      "evaluation by Go's regexp on the bare host name; smallest: %s targets %s"
+                      % (len(bad["mitm"]["P"]), list_texts(c), json.dumps([t.get("authority") for t in c.get("targets", [])])[:300]))
+    elif bad["mitm"]["M"]:
+        c = smallest(bad["mitm"]["M"])
+        ctx.violation("e2e-mitm-correspondence", dict(c, kind="mitm", texts=list_texts(c),
+                                                      unchecked="correspondence model(g17 match_entries on the bare host)/real binary with --mitm-domains"),
+                      False, "%d --mitm-domains lists; smallest: %s" % (len(bad["mitm"]["M"]), list_texts(c)))
+
     def two_lists(c):
         return {"deny-domains": list_texts({"entries": c.get("deny") or []}),
                 "direct-domains": list_texts({"entries": c.get("direct") or []})}
